@@ -355,7 +355,7 @@ func slice(fr *frame, x, lo, hi, max value) value {
 func lookup(fr *frame, instr *ssa.Lookup, x, idx value) value {
 	switch x := x.(type) { // map or string
 	case *omap:
-		v, ok := x.lookup(fr.mapKey(idx))
+		v, ok := x.lookupSym(fr, fr.mapKey(idx))
 		if !ok {
 			v = zero(instr.X.Type().Underlying().(*types.Map).Elem())
 		}
@@ -968,26 +968,30 @@ func unop(fr *frame, instr *ssa.UnOp, x value) value {
 // unless instr.CommaOk, in which case it always returns a "value,ok" tuple.
 func typeAssert(i *interpreter, instr *ssa.TypeAssert, itf iface) value {
 	var v value
-	err := ""
+	fail := false
+	var why func() string
 	if itf.t == nil {
-		err = fmt.Sprintf("interface conversion: interface is nil, not %s", instr.AssertedType)
-
+		fail = true
+		why = func() string {
+			return fmt.Sprintf("interface conversion: interface is nil, not %s", instr.AssertedType)
+		}
 	} else if idst, ok := instr.AssertedType.Underlying().(*types.Interface); ok {
 		v = itf
-		err = checkInterface(i, idst, itf)
-
+		if msg := checkInterface(i, idst, itf); msg != "" {
+			fail = true
+			why = func() string { return msg }
+		}
 	} else if types.Identical(itf.t, instr.AssertedType) {
 		v = itf.v // extract value
-
 	} else {
-		err = fmt.Sprintf("interface conversion: interface is %s, not %s", itf.t, instr.AssertedType)
+		fail = true
+		why = func() string {
+			return fmt.Sprintf("interface conversion: interface is %s, not %s", itf.t, instr.AssertedType)
+		}
 	}
-	// Note: if instr.Underlying==true ever becomes reachable from interp check that
-	// types.Identical(itf.t.Underlying(), instr.AssertedType)
-
-	if err != "" {
+	if fail {
 		if !instr.CommaOk {
-			panic(targetPanic{runtimeError(err)})
+			panic(targetPanic{runtimeError(why())})
 		}
 		return tuple{zero(instr.AssertedType), false}
 	}
@@ -1054,7 +1058,7 @@ func callBuiltin(caller *frame, callpos token.Pos, fn *ssa.Builtin, args []value
 	case "delete": // delete(map[K]value, K)
 		m := args[0].(*omap)
 		if m != nil {
-			m.delete(caller.mapKey(args[1]))
+			m.deleteSym(caller, caller.mapKey(args[1]))
 		}
 		return nil
 
@@ -1180,7 +1184,13 @@ func callBuiltin(caller *frame, callpos token.Pos, fn *ssa.Builtin, args []value
 func rangeIter(fr *frame, x value, t types.Type) iter {
 	switch x := x.(type) {
 	case *omap:
-		return newOmapIter(x)
+		it := newOmapIter(x)
+		if fr.i.px.mapOrder == 1 {
+			for i, j := 0, len(it.keys)-1; i < j; i, j = i+1, j-1 {
+				it.keys[i], it.keys[j] = it.keys[j], it.keys[i]
+			}
+		}
+		return it
 	case string:
 		return &stringIter{s: x}
 	case *rope:
@@ -1325,12 +1335,12 @@ func conv(fr *frame, t_dst, t_src types.Type, x value) value {
 					for _, r := range []rune(s) {
 						res = append(res, r)
 					}
-					return res
+					return padCap(res, int32(0))
 				case types.Byte:
 					for _, b := range []byte(s) {
 						res = append(res, b)
 					}
-					return res
+					return padCap(res, uint8(0))
 				}
 			case *types.Basic:
 				if ut_dst.Kind() == types.String {
@@ -1599,4 +1609,22 @@ func fandbits[F floaty](x, y F) F {
 		*(*uint64)(unsafe.Pointer(&x)) &= *(*uint64)(unsafe.Pointer(&y))
 	}
 	return x
+}
+
+// padCap mirrors gc: string->slice conversions of up to 32 elements use a
+// 32-element buffer, so reslicing within that capacity reads zero elements
+// instead of panicking.  (Capacity is unspecified by the language; this
+// choice keeps engine and native replay in agreement.)
+func padCap(res []value, z value) []value {
+	n := len(res)
+	c := n
+	if c < 32 {
+		c = 32
+	}
+	out := make([]value, c)
+	copy(out, res)
+	for i := n; i < c; i++ {
+		out[i] = z
+	}
+	return out[:n]
 }
